@@ -1,6 +1,6 @@
 (* Properties_C03.v — C03: sparse LU factors reproduce A.
    Property theorems only; proofs in LUProofs.v. *)
-From Model Require Import Base LU LUProofs NumInst.
+From Model Require Import Base LU LUProofs DoolittleProofs NumInst.
 From Coq Require Import Field ZArith.
 Local Open Scope nat_scope.
 
@@ -23,3 +23,34 @@ Theorem C03_defining_equations_give_LU_eq_A :
     forall r c, r < n -> c < n -> nsum N n (fun j => nmul N (L r j) (U j c)) = A r c.
 Proof. exact LU_eq_A. Qed.
 Print Assumptions C03_defining_equations_give_LU_eq_A.
+
+(* LuDecompositionDoolittle, both phases as coded (GetLUMatrices' fill-in loops; Initialize's stream construction
+   fused with Decompose's replay): for every field, every size, every sparsity pattern, every matrix on that pattern
+   and EVERY previous content of the L and U storage, the factors returned (structural zeros read as zero, the unit
+   diagonal of L as stored) multiply to A, provided no pivot the algorithm divides by is zero.
+   (C18_lu_decomposition transfers this to the JIT-generated function.) *)
+Theorem C03_doolittle_factors_reproduce_A :
+  forall (N : Num)
+    (Nfield : field_theory (n0 N) (n1 N) (nadd N) (nmul N) (nsub N) (nopp N) (ndiv N) (ninv N) eq)
+    n (A : mat N) (Ap : pat) (L0 U0 : mat N),
+    let Lp := fst (doolittle_sym n Ap) in
+    let Up := snd (doolittle_sym n Ap) in
+    let LU := doolittle_num N n A Ap Lp Up L0 U0 in
+    let Lf := fun r c => if c <? r then view N Lp (fst LU) r c else if c =? r then n1 N else n0 N in
+    let Uf := fun r c => if r <=? c then view N Up (snd LU) r c else n0 N in
+    (forall i, i < n -> snd LU i i <> n0 N) ->
+    forall r c, r < n -> c < n -> nsum N n (fun j => nmul N (Lf r j) (Uf j c)) = view N Ap A r c.
+Proof. exact doolittle_decomposition_correct. Qed.
+Print Assumptions C03_doolittle_factors_reproduce_A.
+
+(* the symbolic phase alone: the pattern it returns is closed under the fill-in rule, entry by entry *)
+Theorem C03_doolittle_pattern_closed_under_fill_in :
+  forall n (Ap : pat),
+    let Lp := fst (doolittle_sym n Ap) in
+    let Up := snd (doolittle_sym n Ap) in
+    (forall i k, i <= k -> k < n ->
+       Up i k = Ap i k || (k =? i) || existsb (fun j => Lp i j && Up j k) (seq 0 i)) /\
+    (forall i k, i < k -> k < n ->
+       Lp k i = Ap k i || existsb (fun j => Lp k j && Up j i) (seq 0 i)).
+Proof. exact doolittle_sym_closed. Qed.
+Print Assumptions C03_doolittle_pattern_closed_under_fill_in.
